@@ -378,7 +378,7 @@ def run_codec(prop: str, tier: str, stats: Stats) -> Dict[str, Any]:
     sizes = {}
     for name, space in spaces(tier):
         before = stats.executions
-        enumerate_inputs(lambda c: _strip(check(c)), space, stats, name, chunk=256)
+        enumerate_inputs(lambda c: _strip(check(c)), space, stats, name, chunk=256, tolerated=("name-over-255-octets",))
         sizes[name] = stats.executions - before
     return sizes
 
